@@ -185,6 +185,7 @@ PROPS["C02"] = dict(
     coq_targets=["theories/Props/C02.vo", "theories/Run/C02.vo", "theories/Run/C01.vo"],
     props_file="theories/Props/C02.v",
     props_module="Props.C02",
+    shard_kinds={"c02sysplane_cases": "plane"},
     harness=[dict(sub="c02", profile="debug"), dict(sub="c02", profile="release"),
              dict(sub="c01", profile="debug", extra=["--overlap"], result_kind="region")],
     rule="every y-monotone lattice polygon with up to 4 (quick) / 6 (thorough) middle vertices (all left/right interleavings x "
@@ -596,6 +597,7 @@ PROPS["C01"] = dict(
     coq_targets=["theories/Props/C01.vo", "theories/Run/C01.vo"],
     props_file="theories/Props/C01.v",
     props_module="Props.C01",
+    shard_kinds={"c01plane_cases": "plane"},
     harness=[dict(sub="c01", profile="debug")],
     rule="every closed polygon with 3 vertices and every polygon (closed / open alternating) with 4 vertices on the 3x3 "
          "(quick) / 4x4 (thorough) lattice - all coincident / collinear / repeated-vertex / bow-tie degeneracies of that "
